@@ -211,8 +211,8 @@ func run(c *lib.Ctx) error {
 		"alphabet": "a (ASCII), b (BMP, 3 bytes), A (astral, 4 bytes, 2 units), CR, LF, nop (documented command word)"})
 
 	// ---- M (two models) and the G enumeration run side by side
-	var rPos, rSrv, rGen *lib.TLCResult
-	var ePos, eSrv, eGen error
+	var rPos, rSrv, rGen, rRace *lib.TLCResult
+	var ePos, eSrv, eGen, eRace error
 	var wg sync.WaitGroup
 	wg.Add(3)
 	go func() {
@@ -223,7 +223,14 @@ func run(c *lib.Ctx) error {
 	go func() {
 		defer wg.Done()
 		rSrv, eSrv = c.TLC("MCLspServer", lib.TLCRun{Dir: dir, Module: "MCLspServer", Workers: 2, Timeout: 12 * time.Minute, Coverage: false,
-			Files: map[string][]byte{"MCLspServer.cfg": []byte(fmt.Sprintf("CONSTANT MaxMsgs = %d\nSPECIFICATION Spec\nINVARIANT InOrderOnce\nINVARIANT NoDuplicatePublish\nINVARIANT QuiescentComplete\nINVARIANT Causal\nINVARIANT ReplyAtLineStart\nPROPERTY EventuallyQuiescent\n", maxMsgs))}})
+			Files: map[string][]byte{"MCLspServer.cfg": []byte(fmt.Sprintf("CONSTANT MaxMsgs = %d\nCONSTANT Ordered = TRUE\nSPECIFICATION Spec\nINVARIANT InOrderOnce\nINVARIANT NoDuplicatePublish\nINVARIANT QuiescentComplete\nINVARIANT Causal\nINVARIANT ReplyAtLineStart\nINVARIANT FinalPublishFresh\nPROPERTY EventuallyQuiescent\n", maxMsgs))}})
+		if eSrv != nil || rSrv.ErrKind != "" {
+			return
+		}
+		// the design of the code (publications race): TLC is expected to find the stale final
+		// publication in the model; that is a candidate, confirmed or not on the real server below
+		rRace, eRace = c.TLC("MCLspServer-racing", lib.TLCRun{Dir: dir, Module: "MCLspServer", Workers: 2, Timeout: 12 * time.Minute,
+			Files: map[string][]byte{"MCLspServer.cfg": []byte("CONSTANT MaxMsgs = 2\nCONSTANT Ordered = FALSE\nSPECIFICATION Spec\nINVARIANT FinalPublishFresh\n")}})
 	}()
 	go func() {
 		defer wg.Done()
@@ -231,7 +238,7 @@ func run(c *lib.Ctx) error {
 			Files: map[string][]byte{"MCLspGen.cfg": []byte(fmt.Sprintf("CONSTANT N = %d\nINIT GInit\nNEXT GNext\nINVARIANT GridSound\nINVARIANT Emit\n", NG))}})
 	}()
 	wg.Wait()
-	for _, e := range []error{ePos, eSrv, eGen} {
+	for _, e := range []error{ePos, eSrv, eGen, eRace} {
 		if e != nil {
 			return e
 		}
@@ -245,6 +252,7 @@ func run(c *lib.Ctx) error {
 	if rGen.ErrKind != "" {
 		return lib.Infra("generator model inconsistent: %s\n%s", rGen.Err, rGen.ErrTrace)
 	}
+	c.Set("model_candidate_racing_publications", rRace != nil && rRace.ErrKind == "invariant" && rRace.ErrName == "FinalPublishFresh")
 	c.Logf("models: MCLspPos %d states, MCLspServer %d states, MCLspGen %d states", rPos.Distinct, rSrv.Distinct, rGen.Distinct)
 
 	// ---- G
